@@ -46,10 +46,16 @@ void verif_cb64(uint64_t* dr, uint64_t* dg, uint64_t* db, uint64_t* da, uint64_t
 }
 
 #ifdef C07_ARITH_MODEL
+/* ---- the outlined dash selector of the axis-aligned lines: an unconstrained value (it only selects a branch); its precondition is asserted ---- */
+ssize_t nondet_C07_ssize(void);
+ssize_t x_h_div1(ssize_t x, ssize_t dash_length)
+{ __CPROVER_assert(dash_length != 0 && COORD_OK(x) && COORD_OK(dash_length), "dash selector: no division by zero / overflow"); return nondet_C07_ssize(); }
+ssize_t x_v_div1(ssize_t y, ssize_t dash_length)
+{ __CPROVER_assert(dash_length != 0 && COORD_OK(y) && COORD_OK(dash_length), "dash selector: no division by zero / overflow"); return nondet_C07_ssize(); }
 /* ---- the outlined blend expressions, canonical model of their function-point contracts (BLH8 / BLHM / BLHA of the contract header;
  *      proved on the extracted expression text by the groups Image.<fn>.arith[k]) ---- */
 #define MBLH8(name, AL, C, D, gc, gd, gbo) uint64_t name(P8) { uint64_t ret = nondet_C07_u64(); \
-  __CPROVER_assume((g_tup_ok && (AL) == g_t_al && (C) == gc && (D) == gd && gbo == BL8(g_t_al, gc, gd)) ==> ret == gbo); return ret; }
+  __CPROVER_assume((g_tup_ok && (AL) == g_t_al && (C) == gc && (D) == gd) ==> ret == gbo); return ret; }
 MBLH8(x_fill_bl1, p1, p2, p5, g_t_cr, g_t_dr, g_bo_r)
 MBLH8(x_fill_bl2, p1, p3, p6, g_t_cg, g_t_dg, g_bo_g)
 MBLH8(x_fill_bl3, p1, p4, p7, g_t_cb, g_t_db, g_bo_b)
@@ -60,17 +66,17 @@ MBLH8(x_blit_bl3, p4, p3, p7, g_t_cb, g_t_db, g_bo_b)
 MBLH8(x_blit_bl4, p4, p4, p8, g_t_ca, g_t_da, g_bo_a)
 #define MBLHM(name, C, D, gc, gd, gbo) uint64_t name(const Image* self, P8) { uint64_t ret = nondet_C07_u64(); \
   __CPROVER_assert(self->max_value != 0, "blend helper: max_value != 0"); \
-  __CPROVER_assume((g_tup_ok && p4 == g_t_al && (C) == gc && (D) == gd && self->max_value == g_t_mx && gbo == BLM(gc, g_t_al, gd, g_t_mx)) ==> ret == gbo); return ret; }
+  __CPROVER_assume((g_tup_ok && p4 == g_t_al && (C) == gc && (D) == gd && self->max_value == g_t_mx) ==> ret == gbo); return ret; }
 MBLHM(x_blend_bl1, p1, p5, g_t_cr, g_t_dr, g_bo_r)
 MBLHM(x_blend_bl2, p2, p6, g_t_cg, g_t_dg, g_bo_g)
 MBLHM(x_blend_bl3, p3, p7, g_t_cb, g_t_db, g_bo_b)
 MBLHM(x_blend_bl4, p4, p8, g_t_ca, g_t_da, g_bo_a)
 uint64_t x_blenda_bl1(const Image* self, uint64_t source_alpha, uint64_t sr, uint64_t sg, uint64_t sb, uint64_t sa)
 { uint64_t ret = nondet_C07_u64(); __CPROVER_assert(self->max_value != 0, "blend helper: max_value != 0");
-  __CPROVER_assume((g_tup_ok && source_alpha == g_t_e1 && sa == g_t_e2 && self->max_value == g_t_mx && TUP_DEFE) ==> ret == g_bo_e); return ret; }
+  __CPROVER_assume((g_tup_ok && source_alpha == g_t_e1 && sa == g_t_e2 && self->max_value == g_t_mx) ==> ret == g_bo_e); return ret; }
 #define MBLHA(name, C, D, gc, gd, gbo) uint64_t name(const Image* self, uint64_t source_alpha, uint64_t effective_alpha, P8) { uint64_t ret = nondet_C07_u64(); \
   __CPROVER_assert(self->max_value != 0, "blend helper: max_value != 0"); \
-  __CPROVER_assume((g_tup_ok && effective_alpha == g_t_al && (C) == gc && (D) == gd && self->max_value == g_t_mx && gbo == BLM(gc, g_t_al, gd, g_t_mx)) ==> ret == gbo); return ret; }
+  __CPROVER_assume((g_tup_ok && effective_alpha == g_t_al && (C) == gc && (D) == gd && self->max_value == g_t_mx) ==> ret == gbo); return ret; }
 MBLHA(x_blenda_bl2, p1, p5, g_t_cr, g_t_dr, g_bo_r)
 MBLHA(x_blenda_bl3, p2, p6, g_t_cg, g_t_dg, g_bo_g)
 MBLHA(x_blenda_bl4, p3, p7, g_t_cb, g_t_db, g_bo_b)
@@ -108,10 +114,16 @@ void verif_cb64(uint64_t* dr, uint64_t* dg, uint64_t* db, uint64_t* da, uint64_t
 }
 
 #ifdef C07_ARITH_MODEL
+/* ---- the outlined dash selector of the axis-aligned lines: an unconstrained value (it only selects a branch); its precondition is asserted ---- */
+ssize_t nondet_C07_ssize(void);
+ssize_t x_h_div1(ssize_t x, ssize_t dash_length)
+{ __CPROVER_assert(dash_length != 0 && COORD_OK(x) && COORD_OK(dash_length), "dash selector: no division by zero / overflow"); return nondet_C07_ssize(); }
+ssize_t x_v_div1(ssize_t y, ssize_t dash_length)
+{ __CPROVER_assert(dash_length != 0 && COORD_OK(y) && COORD_OK(dash_length), "dash selector: no division by zero / overflow"); return nondet_C07_ssize(); }
 /* ---- the outlined blend expressions, canonical model of their function-point contracts (BLH8 / BLHM / BLHA of the contract header;
  *      proved on the extracted expression text by the groups Image.<fn>.arith[k]) ---- */
 #define MBLH8(name, AL, C, D, gc, gd, gbo) uint64_t name(P8) { uint64_t ret = nondet_C07_u64(); \
-  __CPROVER_assume((g_tup_ok && (AL) == g_t_al && (C) == gc && (D) == gd && gbo == BL8(g_t_al, gc, gd)) ==> ret == gbo); return ret; }
+  __CPROVER_assume((g_tup_ok && (AL) == g_t_al && (C) == gc && (D) == gd) ==> ret == gbo); return ret; }
 MBLH8(x_fill_bl1, p1, p2, p5, g_t_cr, g_t_dr, g_bo_r)
 MBLH8(x_fill_bl2, p1, p3, p6, g_t_cg, g_t_dg, g_bo_g)
 MBLH8(x_fill_bl3, p1, p4, p7, g_t_cb, g_t_db, g_bo_b)
@@ -122,17 +134,17 @@ MBLH8(x_blit_bl3, p4, p3, p7, g_t_cb, g_t_db, g_bo_b)
 MBLH8(x_blit_bl4, p4, p4, p8, g_t_ca, g_t_da, g_bo_a)
 #define MBLHM(name, C, D, gc, gd, gbo) uint64_t name(const Image* self, P8) { uint64_t ret = nondet_C07_u64(); \
   __CPROVER_assert(self->max_value != 0, "blend helper: max_value != 0"); \
-  __CPROVER_assume((g_tup_ok && p4 == g_t_al && (C) == gc && (D) == gd && self->max_value == g_t_mx && gbo == BLM(gc, g_t_al, gd, g_t_mx)) ==> ret == gbo); return ret; }
+  __CPROVER_assume((g_tup_ok && p4 == g_t_al && (C) == gc && (D) == gd && self->max_value == g_t_mx) ==> ret == gbo); return ret; }
 MBLHM(x_blend_bl1, p1, p5, g_t_cr, g_t_dr, g_bo_r)
 MBLHM(x_blend_bl2, p2, p6, g_t_cg, g_t_dg, g_bo_g)
 MBLHM(x_blend_bl3, p3, p7, g_t_cb, g_t_db, g_bo_b)
 MBLHM(x_blend_bl4, p4, p8, g_t_ca, g_t_da, g_bo_a)
 uint64_t x_blenda_bl1(const Image* self, uint64_t source_alpha, uint64_t sr, uint64_t sg, uint64_t sb, uint64_t sa)
 { uint64_t ret = nondet_C07_u64(); __CPROVER_assert(self->max_value != 0, "blend helper: max_value != 0");
-  __CPROVER_assume((g_tup_ok && source_alpha == g_t_e1 && sa == g_t_e2 && self->max_value == g_t_mx && TUP_DEFE) ==> ret == g_bo_e); return ret; }
+  __CPROVER_assume((g_tup_ok && source_alpha == g_t_e1 && sa == g_t_e2 && self->max_value == g_t_mx) ==> ret == g_bo_e); return ret; }
 #define MBLHA(name, C, D, gc, gd, gbo) uint64_t name(const Image* self, uint64_t source_alpha, uint64_t effective_alpha, P8) { uint64_t ret = nondet_C07_u64(); \
   __CPROVER_assert(self->max_value != 0, "blend helper: max_value != 0"); \
-  __CPROVER_assume((g_tup_ok && effective_alpha == g_t_al && (C) == gc && (D) == gd && self->max_value == g_t_mx && gbo == BLM(gc, g_t_al, gd, g_t_mx)) ==> ret == gbo); return ret; }
+  __CPROVER_assume((g_tup_ok && effective_alpha == g_t_al && (C) == gc && (D) == gd && self->max_value == g_t_mx) ==> ret == gbo); return ret; }
 MBLHA(x_blenda_bl2, p1, p5, g_t_cr, g_t_dr, g_bo_r)
 MBLHA(x_blenda_bl3, p2, p6, g_t_cg, g_t_dg, g_bo_g)
 MBLHA(x_blenda_bl4, p3, p7, g_t_cb, g_t_db, g_bo_b)
@@ -156,10 +168,16 @@ void verif_cb64(uint64_t* dr, uint64_t* dg, uint64_t* db, uint64_t* da, uint64_t
 }
 
 #ifdef C07_ARITH_MODEL
+/* ---- the outlined dash selector of the axis-aligned lines: an unconstrained value (it only selects a branch); its precondition is asserted ---- */
+ssize_t nondet_C07_ssize(void);
+ssize_t x_h_div1(ssize_t x, ssize_t dash_length)
+{ __CPROVER_assert(dash_length != 0 && COORD_OK(x) && COORD_OK(dash_length), "dash selector: no division by zero / overflow"); return nondet_C07_ssize(); }
+ssize_t x_v_div1(ssize_t y, ssize_t dash_length)
+{ __CPROVER_assert(dash_length != 0 && COORD_OK(y) && COORD_OK(dash_length), "dash selector: no division by zero / overflow"); return nondet_C07_ssize(); }
 /* ---- the outlined blend expressions, canonical model of their function-point contracts (BLH8 / BLHM / BLHA of the contract header;
  *      proved on the extracted expression text by the groups Image.<fn>.arith[k]) ---- */
 #define MBLH8(name, AL, C, D, gc, gd, gbo) uint64_t name(P8) { uint64_t ret = nondet_C07_u64(); \
-  __CPROVER_assume((g_tup_ok && (AL) == g_t_al && (C) == gc && (D) == gd && gbo == BL8(g_t_al, gc, gd)) ==> ret == gbo); return ret; }
+  __CPROVER_assume((g_tup_ok && (AL) == g_t_al && (C) == gc && (D) == gd) ==> ret == gbo); return ret; }
 MBLH8(x_fill_bl1, p1, p2, p5, g_t_cr, g_t_dr, g_bo_r)
 MBLH8(x_fill_bl2, p1, p3, p6, g_t_cg, g_t_dg, g_bo_g)
 MBLH8(x_fill_bl3, p1, p4, p7, g_t_cb, g_t_db, g_bo_b)
@@ -170,17 +188,17 @@ MBLH8(x_blit_bl3, p4, p3, p7, g_t_cb, g_t_db, g_bo_b)
 MBLH8(x_blit_bl4, p4, p4, p8, g_t_ca, g_t_da, g_bo_a)
 #define MBLHM(name, C, D, gc, gd, gbo) uint64_t name(const Image* self, P8) { uint64_t ret = nondet_C07_u64(); \
   __CPROVER_assert(self->max_value != 0, "blend helper: max_value != 0"); \
-  __CPROVER_assume((g_tup_ok && p4 == g_t_al && (C) == gc && (D) == gd && self->max_value == g_t_mx && gbo == BLM(gc, g_t_al, gd, g_t_mx)) ==> ret == gbo); return ret; }
+  __CPROVER_assume((g_tup_ok && p4 == g_t_al && (C) == gc && (D) == gd && self->max_value == g_t_mx) ==> ret == gbo); return ret; }
 MBLHM(x_blend_bl1, p1, p5, g_t_cr, g_t_dr, g_bo_r)
 MBLHM(x_blend_bl2, p2, p6, g_t_cg, g_t_dg, g_bo_g)
 MBLHM(x_blend_bl3, p3, p7, g_t_cb, g_t_db, g_bo_b)
 MBLHM(x_blend_bl4, p4, p8, g_t_ca, g_t_da, g_bo_a)
 uint64_t x_blenda_bl1(const Image* self, uint64_t source_alpha, uint64_t sr, uint64_t sg, uint64_t sb, uint64_t sa)
 { uint64_t ret = nondet_C07_u64(); __CPROVER_assert(self->max_value != 0, "blend helper: max_value != 0");
-  __CPROVER_assume((g_tup_ok && source_alpha == g_t_e1 && sa == g_t_e2 && self->max_value == g_t_mx && TUP_DEFE) ==> ret == g_bo_e); return ret; }
+  __CPROVER_assume((g_tup_ok && source_alpha == g_t_e1 && sa == g_t_e2 && self->max_value == g_t_mx) ==> ret == g_bo_e); return ret; }
 #define MBLHA(name, C, D, gc, gd, gbo) uint64_t name(const Image* self, uint64_t source_alpha, uint64_t effective_alpha, P8) { uint64_t ret = nondet_C07_u64(); \
   __CPROVER_assert(self->max_value != 0, "blend helper: max_value != 0"); \
-  __CPROVER_assume((g_tup_ok && effective_alpha == g_t_al && (C) == gc && (D) == gd && self->max_value == g_t_mx && gbo == BLM(gc, g_t_al, gd, g_t_mx)) ==> ret == gbo); return ret; }
+  __CPROVER_assume((g_tup_ok && effective_alpha == g_t_al && (C) == gc && (D) == gd && self->max_value == g_t_mx) ==> ret == gbo); return ret; }
 MBLHA(x_blenda_bl2, p1, p5, g_t_cr, g_t_dr, g_bo_r)
 MBLHA(x_blenda_bl3, p2, p6, g_t_cg, g_t_dg, g_bo_g)
 MBLHA(x_blenda_bl4, p3, p7, g_t_cb, g_t_db, g_bo_b)
